@@ -1,6 +1,7 @@
 import ScVerif.Base.Line
 import ScVerif.C02.Time
 import ScVerif.C02.Send
+import ScVerif.C02.Answer
 /-!
 Driver handler for C02.  Messages are pairs of integers `a.b` (`durationpb.Duration{seconds, nanos}` on the
 Go side, the empty message is `0.0`), so that update masks can select one field and leave the other.
@@ -31,6 +32,10 @@ Request:  `send <rollback:0|1> <clock> <init> <progs> <psched>`: the publication
 fixed code with the empty candidate script); `psched` entries are thread ids, followed by `!` when the step, if it is
 a publication, times out.  Answer: `T0=[r,...]|T1=[...]|store=id:a.b,...` with r as above, `err:Unknown` for a call
 whose publication timed out and `pending` for a call whose publication is still to be made.
+
+Request:  `answer <own|fresh> <clock> <init> <progs> <psched>`: the answer layer on top of it (`Answer.lean`, `arun`):
+what the write HANDLER around each call answered (`own`: with what the call handed back — the code; `fresh`: with a
+fresh read made when the call has returned — not the code).  Same answer format, r = the handler's answer.
 -/
 namespace ScVerif.C02
 open ScVerif.Line
@@ -183,8 +188,28 @@ def handleSend (rollback : Bool) (clock : Nat → Nat) (init : List (Nat × P)) 
       | _, _ => "pending")) ++ "]")
   "|".intercalate ths ++ s!"|store={showStorePlain pc.core}"
 
+def handleAnswer (how : AnswerBy) (clock : Nat → Nat) (init : List (Nat × P)) (progs : List (List (Op P)))
+    (psched : List (Nat × Bool)) : String :=
+  let s₀ : SStore P := fun i => (init.find? (fun kv => kv.1 == i)).map (·.2)
+  let env : Env := ⟨clock, candOf []⟩
+  let a := arun how true env (ainit s₀ (fun t => progs.getD t [])) psched
+  let ths := (List.range progs.length).map (fun t =>
+    s!"T{t}=[" ++ ",".intercalate ((List.range (a.p.core.threads t).done.length).map (fun n =>
+      match (a.answers t)[n]?, (a.p.core.threads t).done[n]? with
+      | some res, some r => showRes r.op res
+      | _, _ => "pending")) ++ "]")
+  "|".intercalate ths ++ s!"|store={showStorePlain a.p.core}"
+
+def parseHow? (s : String) : Option AnswerBy :=
+  if s = "own" then some .own else if s = "fresh" then some .fresh else none
+
 def handle (toks : List String) : String :=
   match toks with
+  | ["answer", how, clock, init, progs, psched] =>
+    match parseHow? how, parseClock? clock, parseInit? init, (progs.splitOn "|").mapM parseProg?,
+        parsePSched? psched with
+    | some how, some clock, some init, some progs, some psched => handleAnswer how clock init progs psched
+    | _, _, _, _, _ => "!bad-op"
   | ["send", rollback, clock, init, progs, psched] =>
     match parseBool? rollback, parseClock? clock, parseInit? init, (progs.splitOn "|").mapM parseProg?,
         parsePSched? psched with
